@@ -214,7 +214,17 @@ fn process_proactive_filling(core: &mut Core, mapping: &mut WorkerTaskMapping) {
             continue;
         }
         for worker in workers {
-            let tasks = queue.take_tasks_for_prefill(prefill_size);
+            let mut tasks = queue.take_tasks_for_prefill(prefill_size);
+            tasks.retain(|task_id| {
+                // A retracted task waits in the ready queue for its retract response,
+                // it cannot be prefilled again before the response arrives.
+                if task_map.get_task(*task_id).is_retracting() {
+                    queue.move_prefilled_task_to_ready(*task_id);
+                    false
+                } else {
+                    true
+                }
+            });
             for task_id in &tasks {
                 log::debug!("Prefiling task={task_id} to worker={}", worker.id);
                 let task = task_map.get_task_mut(*task_id);
